@@ -13,6 +13,7 @@ From Coq Require Import ZArith List Bool FMapPositive Lia.
 From Verif Require Import Base.Word256 C14.Venom C14.VenomProofs C14.VenomSim C14.ValRUV C14.ValDFT.
 Import ListNotations.
 Open Scope Z_scope.
+Opaque label_addr.
 
 (* ---------------------------------------------------------------- known copies *)
 Definition avs := list (positive * operand).
@@ -36,9 +37,8 @@ Proof.
   apply andb_true_iff in C. destruct C as [C1 C2].
   assert (Nx : ~ In x D). { apply memp_false_In. destruct (memp x D); [discriminate|reflexivity]. }
   rewrite (K x Nx). rewrite (H x o I).
-  destruct o as [z|y|l]; simpl in *; auto.
-  - symmetry. apply K. apply memp_false_In. destruct (memp y D); [discriminate|reflexivity].
-  - discriminate.
+  destruct o as [z|y|l]; simpl in *; auto; try discriminate.
+  symmetry. apply K. apply memp_false_In. destruct (memp y D); [discriminate|reflexivity].
 Qed.
 
 Lemma holds_nil : forall vs, holds [] vs.
@@ -56,20 +56,23 @@ Proof.
   destruct (Pos.eqb x v) eqn:E. - apply Pos.eqb_eq in E. inversion H. subst. left. reflexivity. - right. auto.
 Qed.
 
-Fixpoint root (AV : avs) (fuel : nat) (o : operand) : operand :=
+(* the operands known to have the same value as o: o itself, its source, the source of its source, ... *)
+Fixpoint chain (AV : avs) (fuel : nat) (o : operand) : list operand :=
   match fuel with
-  | O => o
-  | S n => match o with
-           | OVar v => match lookup v AV with Some o' => root AV n o' | None => o end
-           | _ => o
-           end
+  | O => [o]
+  | S n => o :: match o with
+                | OVar v => match lookup v AV with Some o' => chain AV n o' | None => [] end
+                | _ => []
+                end
   end.
 
-Lemma root_value : forall AV vs, holds AV vs -> forall fuel o, eval_op vs (root AV fuel o) = eval_op vs o.
+Lemma chain_value : forall AV vs, holds AV vs -> forall fuel o r, In r (chain AV fuel o) -> eval_op vs r = eval_op vs o.
 Proof.
-  intros AV vs H. induction fuel as [|n IH]; intros o; simpl; auto.
-  destruct o as [z|v|l]; auto. destruct (lookup v AV) as [o'|] eqn:L; auto.
-  rewrite IH. simpl. symmetry. apply H. apply lookup_In. assumption.
+  intros AV vs H. induction fuel as [|n IH]; intros o r I; simpl in I.
+  - destruct I as [<-|[]]. reflexivity.
+  - destruct I as [<-|I]; [reflexivity|].
+    destruct o as [z|v|l]; try contradiction. destruct (lookup v AV) as [o'|] eqn:L; [|contradiction].
+    rewrite (IH o' r I). simpl. symmetry. apply H. apply lookup_In. assumption.
 Qed.
 
 Definition ROOT_FUEL : nat := 8%nat.
@@ -81,23 +84,23 @@ Definition opmatch (U : positive -> bool) (AVb AVa : avs) (ob oa : operand) : bo
   match ob, oa with
   | OLab l, OLab l' => Pos.eqb l l'
   | OLab _, _ | _, OLab _ => false
-  | _, _ => let rb := root AVb ROOT_FUEL ob in
-            (if operand_eq_dec rb (root AVa ROOT_FUEL oa) then true else false) && root_ok U rb
+  | _, _ => let ca := chain AVa ROOT_FUEL oa in
+            existsb (fun r => root_ok U r && existsb (fun r' => if operand_eq_dec r r' then true else false) ca) (chain AVb ROOT_FUEL ob)
   end.
 
 Lemma opmatch_resolve : forall U AVb AVa vb va ob oa, opmatch U AVb AVa ob oa = true ->
   agree U va vb -> holds AVb vb -> holds AVa va -> resolve vb ob = resolve va oa.
 Proof.
   intros U AVb AVa vb va ob oa M A HB HA. unfold opmatch in M.
-  assert (G : forall ob oa, (match ob with OLab _ => False | _ => True end) -> (match oa with OLab _ => False | _ => True end) ->
-              (if operand_eq_dec (root AVb ROOT_FUEL ob) (root AVa ROOT_FUEL oa) then true else false) && root_ok U (root AVb ROOT_FUEL ob) = true ->
-              eval_op vb ob = eval_op va oa).
-  { intros b a _ _ C. apply andb_true_iff in C. destruct C as [C1 C2].
-    destruct (operand_eq_dec (root AVb ROOT_FUEL b) (root AVa ROOT_FUEL a)) as [EQ|]; [|discriminate].
-    rewrite <- (root_value AVb vb HB ROOT_FUEL b), <- (root_value AVa va HA ROOT_FUEL a), <- EQ.
-    destruct (root AVb ROOT_FUEL b) as [z|v|l]; simpl in *; auto. symmetry. apply A. assumption. discriminate. }
+  assert (G : forall ob oa,
+              existsb (fun r => root_ok U r && existsb (fun r' => if operand_eq_dec r r' then true else false) (chain AVa ROOT_FUEL oa))
+                      (chain AVb ROOT_FUEL ob) = true -> eval_op vb ob = eval_op va oa).
+  { intros b a C. apply existsb_exists in C. destruct C as [r [Ib C]]. apply andb_true_iff in C. destruct C as [RO C].
+    apply existsb_exists in C. destruct C as [r' [Ia EQ]]. destruct (operand_eq_dec r r') as [<-|]; [|discriminate].
+    rewrite <- (chain_value AVb vb HB ROOT_FUEL b r Ib), <- (chain_value AVa va HA ROOT_FUEL a r Ia).
+    destruct r as [z|v|l]; simpl in *; auto; try discriminate. symmetry. apply A. assumption. }
   destruct ob as [z|v|l]; destruct oa as [z'|v'|l']; try discriminate M;
-    try (unfold resolve; f_equal; apply G; simpl; auto).
+    try (unfold resolve; f_equal; apply G; assumption).
   apply Pos.eqb_eq in M. subst. reflexivity.
 Qed.
 
@@ -158,7 +161,7 @@ Lemma copy_gen : forall AV vs x o v, holds AV vs -> eval_op vs o = Some v ->
 Proof.
   intros AV vs x o v H EV NE x' o' I. destruct I as [I|I].
   - inversion I. subst x' o'. rewrite PositiveMap.gss.
-    destruct o as [z|y|l]; simpl in *; auto. + rewrite PositiveMap.gso; auto. + contradiction.
+    destruct o as [z|y|l]; simpl in *; auto; try contradiction; try (rewrite PositiveMap.gso; auto).
   - revert x' o' I. fold (holds (kill [x] AV) (PositiveMap.add x v vs)). eapply kill_holds; eauto.
     intros y N. apply PositiveMap.gso. intro; subst. apply N. left. reflexivity.
 Qed.
@@ -183,8 +186,19 @@ Definition kept_ok (U : positive -> bool) (AVb AVa : avs) (ib ia : inst) : bool 
   && (if list_eq_dec Pos.eq_dec (i_outs ib) (i_outs ia) then true else false)
   && argsmatch U AVb AVa (i_args ib) (i_args ia).
 
+(* `%x = @label` (a code address, e.g. a return pc after inlining) is not modelled: executing it is stuck *)
+Definition is_lab_copy (i : inst) : bool :=
+  match i_op i, i_args i with O_assign, [OLab _] => true | _, _ => false end.
+
+Lemma exec_lab_copy : forall E X i vs st, is_lab_copy i = true -> stk (exec_inst E X i vs st).
+Proof.
+  intros E X [outs op args] vs st H. unfold is_lab_copy in H. simpl in H. destruct op; try discriminate H.
+  destruct args as [|[z|v|l] [|o2 t]]; try discriminate H.
+  rewrite exec_inst_is_simple by reflexivity. unfold exec_simple. simpl. reflexivity.
+Qed.
+
 Definition one_sided (U : positive -> bool) (i : inst) : bool :=
-  is_nop i || match is_copy i with Some (x, _) => negb (U x) | None => false end.
+  is_nop i || is_lab_copy i || match is_copy i with Some (x, _) => negb (U x) | None => false end.
 
 Fixpoint walk (fuel : nat) (U : positive -> bool) (AVb AVa : avs) (lb la : list inst) : option (avs * avs) :=
   match fuel with
@@ -194,7 +208,7 @@ Fixpoint walk (fuel : nat) (U : positive -> bool) (AVb AVa : avs) (lb la : list 
       | [], [] => Some (AVb, AVa)
       | ib :: rb, ia :: ra =>
           if kept_ok U AVb AVa ib ia then
-            if continues (i_op ib) then walk n U (step_av ib (is_copy ib) AVb) (step_av ia (is_copy ia) AVa) rb ra
+            if continues (i_op ib) || is_unknown (i_op ib) then walk n U (step_av ib (is_copy ib) AVb) (step_av ia (is_copy ia) AVa) rb ra
             else match rb, ra with [], [] => Some (AVb, AVa) | _, _ => None end
           else if one_sided U ib then walk n U (step_av ib (is_copy ib) AVb) AVa rb la
           else if one_sided U ia then walk n U AVb (step_av ia (is_copy ia) AVa) lb ra
@@ -243,12 +257,13 @@ Lemma one_sided_exec : forall E X U i AV vs st, one_sided U i = true -> holds AV
               (forall y, U y = true -> PositiveMap.find y vs' = PositiveMap.find y vs).
 Proof.
   intros E X U i AV vs st O H. unfold one_sided in O. apply orb_true_iff in O. destruct O as [N|C].
-  - destruct (exec_nop E X i vs st N) as [EQ|S]; [|left; assumption]. right. exists vs. split; auto. split; auto.
+  - apply orb_true_iff in N. destruct N as [N|L]; [|left; apply exec_lab_copy; assumption].
+    destruct (exec_nop E X i vs st N) as [EQ|S]; [|left; assumption]. right. exists vs. split; auto. split; auto.
     eapply step_av_holds; eauto. unfold continues. unfold is_nop in N. destruct (i_op i); try discriminate N. reflexivity.
   - destruct (is_copy i) as [[x o]|] eqn:IC; [|discriminate].
     destruct (exec_copy E X i x o vs st IC) as [S|[v [EV EQ]]]; [left; assumption|].
     right. exists (PositiveMap.add x v vs). split; auto. split.
-    + eapply step_av_holds; eauto. unfold continues. unfold is_copy in IC. destruct (i_op i); try discriminate IC. reflexivity.
+    + rewrite <- IC. eapply step_av_holds; eauto. unfold continues. unfold is_copy in IC. destruct (i_op i); try discriminate IC. reflexivity.
     + intros y Uy. apply PositiveMap.gso. intro; subst. rewrite Uy in C. discriminate.
 Qed.
 
@@ -261,6 +276,29 @@ Proof.
   destruct (list_eq_dec Pos.eq_dec (i_outs ib) (i_outs ia)) as [EU|]; [|discriminate].
   rewrite !exec_inst_factor. rewrite <- EO, <- EU.
   rewrite (argsmatch_resolve U AVb AVa vb va _ _ AM A HB HA). apply exec_inst_r_sim. assumption.
+Qed.
+
+Definition is_jump (o : opc) : bool := match o with O_jmp | O_jnz | O_djmp => true | _ => false end.
+
+Lemma exec_inst_jump : forall E X i vs st l vs' s, exec_inst E X i vs st = SJump l vs' s ->
+  vs' = vs /\ s = st /\ In (OLab l) (i_args i) /\ is_jump (i_op i) = true.
+Proof.
+  intros E X [outs op args] vs st l vs' s H. unfold exec_inst in H. simpl in *.
+  destruct op; try discriminate H;
+    try (match type of H with context [exec_simple E X ?i vs st] => destruct (exec_simple E X i vs st) as [[? ?]|] end; discriminate H).
+  - destruct args as [|[z|v|l0] [|o2 t]]; try discriminate H. inversion H. subst. simpl. auto.
+  - destruct args as [|c [|[z|v|t] [|[z2|v2|e] [|o4 r]]]]; try discriminate H.
+    destruct (eval_op vs c) as [v|]; [|discriminate H]. destruct (v <? 0); [discriminate H|]. inversion H. subst.
+    repeat split; auto. destruct (v =? 0); simpl; auto.
+  - destruct args as [|t labs]; try discriminate H. destruct (eval_op vs t) as [v|]; [|discriminate H].
+    destruct (find (fun o => match o with OLab l1 => label_addr l1 =? v | _ => false end) labs) as [[z|x|l0]|] eqn:F; try discriminate H.
+    inversion H. subst. apply find_some in F. destruct F as [F _]. simpl. repeat split; auto.
+  - destruct args as [|c [|c2 t]]; try discriminate H. destruct (eval_op vs c) as [v|]; [|discriminate H].
+    destruct (v <? 0); [discriminate H|]. destruct (v =? 0); discriminate H.
+  - destruct args as [|c [|c2 t]]; try discriminate H. destruct (eval_op vs c) as [v|]; [|discriminate H].
+    destruct (v <? 0); [discriminate H|]. destruct (v =? 0); discriminate H.
+  - destruct (eval_ops vs args) as [[|p [|n [|x t]]]|]; try discriminate H. unfold halt_data in H. destruct (okaddr p n); discriminate H.
+  - destruct (eval_ops vs args) as [[|p [|n [|x t]]]|]; try discriminate H. unfold halt_data in H. destruct (okaddr p n); discriminate H.
 Qed.
 
 Lemma walk_sound : forall E X U fuel AVb AVa lb la OB OA vb va st,
@@ -291,8 +329,11 @@ Proof.
   - destruct (one_sided U ib) eqn:O; [|discriminate]. eapply BONLY; eauto.
   - destruct (kept_ok U AVb AVa ib ia) eqn:K.
     + pose proof (kept_exec E X U AVb AVa ib ia vb va st K A HB HA) as SIM. simpl.
-      destruct (continues (i_op ib)) eqn:C.
-      * assert (Ca : continues (i_op ia) = true).
+      destruct (continues (i_op ib) || is_unknown (i_op ib)) eqn:C0.
+      * destruct (is_unknown (i_op ib)) eqn:UK.
+        { left. pose proof (exec_inst_unknown E X ib vb st UK) as S. destruct (exec_inst E X ib vb st); simpl in *; try contradiction; auto. }
+        assert (C : continues (i_op ib) = true) by (rewrite orb_false_r in C0; exact C0).
+        assert (Ca : continues (i_op ia) = true).
         { unfold kept_ok in K. apply andb_true_iff in K. destruct K as [K _]. apply andb_true_iff in K. destruct K as [K _].
           destruct (opc_eq_dec (i_op ib) (i_op ia)) as [<-|]; [assumption|discriminate]. }
         destruct (exec_inst E X ib vb st) as [vb' s|l vb' s|h s] eqn:EB; destruct (exec_inst E X ia va st) as [va' s'|l' va' s'|h' s'] eqn:EA;
@@ -309,11 +350,200 @@ Proof.
           simpl in SIM; try contradiction.
         -- left. reflexivity.
         -- destruct SIM as [<- [<- A']]. right. right. simpl. repeat split; auto.
-           ++ (* a jump does not change the variables *)
-              admit.
-           ++ admit.
+           ++ destruct (exec_inst_jump E X ib vb st _ _ _ EB) as [-> _]. assumption.
+           ++ destruct (exec_inst_jump E X ia va st _ _ _ EA) as [-> _]. assumption.
         -- destruct SIM as [<- <-]. destruct (is_stuck h) eqn:SK; [left; exact SK|]. right. right. simpl. auto.
     + destruct (one_sided U ib) eqn:O1.
       * eapply BONLY; eauto.
       * destruct (one_sided U ia) eqn:O2; [|discriminate]. eapply AONLY; eauto.
-Admitted.
+Qed.
+
+(* ---------------------------------------------------------------- blocks, certificate, functions *)
+Definition cert := PositiveMap.t (avs * avs).     (* label -> copies known at block entry in `before`, in `after` *)
+
+Definition pair_eqb (a b : positive * operand) : bool :=
+  Pos.eqb (fst a) (fst b) && (if operand_eq_dec (snd a) (snd b) then true else false).
+
+Definition sub_av (A B : avs) : bool := forallb (fun xo => existsb (pair_eqb xo) B) A.
+
+Lemma sub_av_spec : forall A B, sub_av A B = true -> forall xo, In xo A -> In xo B.
+Proof.
+  intros A B H [x o] I. unfold sub_av in H. rewrite forallb_forall in H. specialize (H _ I).
+  apply existsb_exists in H. destruct H as [[y o'] [I' E]]. unfold pair_eqb in E. simpl in E.
+  apply andb_true_iff in E. destruct E as [E1 E2]. apply Pos.eqb_eq in E1. destruct (operand_eq_dec o o'); [|discriminate]. subst. assumption.
+Qed.
+
+Definition edges_ok (C : cert) (OB OA : avs) (l : list inst) : bool :=
+  forallb (fun i => if is_jump (i_op i) then
+                      forallb (fun o => match o with
+                                        | OLab t => match PositiveMap.find t C with
+                                                    | Some (Tb, Ta) => sub_av Tb OB && sub_av Ta OA
+                                                    | None => true end
+                                        | _ => true end) (i_args i)
+                    else true) l.
+
+Definition copy_block (U : positive -> bool) (C : cert) (cur : positive) (lb la : list inst) : bool :=
+  match PositiveMap.find cur C with
+  | None => false
+  | Some (INb, INa) =>
+      let (pb, rb) := split_phis lb in
+      let (pa, ra) := split_phis la in
+      (if list_eq_dec inst_eq_dec pb pa then true else false)
+      && forallb (fun p => uses_in U (i_args p)) pb
+      && let D := flat_map i_outs pb in
+         match walk (length rb + length ra + 1) U (kill D INb) (kill D INa) rb ra with
+         | Some (OB, OA) => edges_ok C OB OA rb
+         | None => false
+         end
+  end.
+
+Definition blocks_match_l (chk : positive -> list inst -> list inst -> bool) (b a : func) : bool :=
+  forallb (fun kv => match PositiveMap.find (fst kv) (f_blocks a) with Some la => chk (fst kv) (snd kv) la | None => false end)
+          (PositiveMap.elements (f_blocks b))
+  && forallb (fun kv => match PositiveMap.find (fst kv) (f_blocks b) with Some _ => true | None => false end)
+             (PositiveMap.elements (f_blocks a)).
+
+Lemma blocks_match_l_spec : forall chk b a, blocks_match_l chk b a = true -> forall l,
+  match PositiveMap.find l (f_blocks b), PositiveMap.find l (f_blocks a) with
+  | None, None => True
+  | Some lb, Some la => chk l lb la = true
+  | _, _ => False
+  end.
+Proof.
+  intros chk b a H l. unfold blocks_match_l in H. apply andb_true_iff in H. destruct H as [H1 H2].
+  rewrite forallb_forall in H1, H2.
+  destruct (PositiveMap.find l (f_blocks b)) as [lb|] eqn:Fb.
+  - specialize (H1 (l, lb) (PositiveMap.elements_correct _ _ Fb)). simpl in H1.
+    destruct (PositiveMap.find l (f_blocks a)); auto. discriminate.
+  - destruct (PositiveMap.find l (f_blocks a)) as [la|] eqn:Fa; auto.
+    specialize (H2 (l, la) (PositiveMap.elements_correct _ _ Fa)). simpl in H2. rewrite Fb in H2. discriminate.
+Qed.
+
+Definition entry_ok (C : cert) (b : func) : bool :=
+  match PositiveMap.find (f_entry b) C with Some ([], []) => true | _ => false end.
+
+Definition copy_check (U : positive -> bool) (C : cert) (b a : func) : bool :=
+  same_frame b a && entry_ok C b && blocks_match_l (copy_block U C) b a.
+
+(* phis: identical lists, operands in U *)
+Lemma ruv_align_refl : forall U l, forallb (fun p => uses_in U (i_args p)) l = true -> ruv_align U l l = true.
+Proof.
+  intros U. induction l as [|i r IH]; intros H; simpl in *; auto.
+  apply andb_true_iff in H. destruct H as [H1 H2]. destruct (inst_eq_dec i i); [|contradiction]. rewrite H1. simpl. auto.
+Qed.
+
+Lemma exec_phis_other : forall prev l old vs vs' rest, exec_phis prev l old vs = Some (vs', rest) ->
+  forall x, ~ In x (flat_map i_outs (fst (split_phis l))) -> PositiveMap.find x vs' = PositiveMap.find x vs.
+Proof.
+  intros prev. induction l as [|i r IH]; intros old vs vs' rest H x N.
+  - simpl in H. inversion H. reflexivity.
+  - destruct (is_phi i) eqn:P.
+    + rewrite (exec_phis_phi prev i r old vs P) in H.
+      simpl in N. rewrite P in N. destruct (split_phis r) as [ps rs] eqn:SR. simpl in N.
+      destruct (i_outs i) as [|o [|o2 t]] eqn:EO; try discriminate H.
+      destruct (phi_val prev (map (resolve old) (i_args i))) as [v|]; [|discriminate H].
+      rewrite (IH _ _ _ _ H x).
+      * apply PositiveMap.gso. intro; subst. apply N. simpl. left. reflexivity.
+      * simpl. intro I. apply N. apply in_or_app. right. assumption.
+    + rewrite (exec_phis_nonphi prev i r old vs P) in H. inversion H. reflexivity.
+Qed.
+
+Lemma edges_jump : forall E X C OB OA l rb vs st v s Tb Ta, edges_ok C OB OA rb = true ->
+  exec_insts E X rb vs st = SJump l v s -> PositiveMap.find l C = Some (Tb, Ta) -> sub_av Tb OB && sub_av Ta OA = true.
+Proof.
+  intros E X C OB OA l. induction rb as [|i r IH]; intros vs st v s Tb Ta W RB FC; simpl in RB; [discriminate|].
+  unfold edges_ok in W. simpl in W. apply andb_true_iff in W. destruct W as [W1 W2].
+  destruct (exec_inst E X i vs st) as [v1 s1|l1 v1 s1|h1 s1] eqn:EI; try discriminate.
+  - eapply IH; eauto.
+  - inversion RB. subst. destruct (exec_inst_jump E X i vs st _ _ _ EI) as [_ [_ [IL J]]]. rewrite J in W1.
+    rewrite forallb_forall in W1. specialize (W1 _ IL). simpl in W1. rewrite FC in W1. exact W1.
+Qed.
+
+Section CopyLift.
+  Variable E : env.
+  Variable X : oracle.
+  Variable U : positive -> bool.
+  Variable C : cert.
+  Variable b a : func.
+  Hypothesis BM : blocks_match_l (copy_block U C) b a = true.
+
+  Definition cinv (cur prev : positive) (vb va : vmap) : Prop :=
+    agree U va vb /\ match PositiveMap.find cur C with Some (INb, INa) => holds INb vb /\ holds INa va | None => True end.
+
+  Lemma copy_blk : forall cur prev vb va st, cinv cur prev vb va ->
+    match PositiveMap.find cur (f_blocks b), PositiveMap.find cur (f_blocks a) with
+    | None, None => True
+    | Some lb, Some la =>
+        let rb := block_res E X prev lb vb st in
+        let ra := block_res E X prev la va st in
+        bad rb \/ (True /\ bad ra) \/
+        match rb, ra with
+        | SJump l vb' s, SJump l' va' s' => l = l' /\ s = s' /\ cinv l cur vb' va'
+        | SHalt h s, SHalt h' s' => h = h' /\ s = s'
+        | _, _ => False
+        end
+    | _, _ => False
+    end.
+  Proof.
+    intros cur prev vb va st [A HI]. pose proof (blocks_match_l_spec _ b a BM cur) as M.
+    destruct (PositiveMap.find cur (f_blocks b)) as [lb|]; destruct (PositiveMap.find cur (f_blocks a)) as [la|]; auto.
+    unfold copy_block in M. destruct (PositiveMap.find cur C) as [[INb INa]|]; [|discriminate]. destruct HI as [HB HA].
+    destruct (split_phis lb) as [pb rb] eqn:SB. destruct (split_phis la) as [pa ra] eqn:SA.
+    apply andb_true_iff in M. destruct M as [M W]. apply andb_true_iff in M. destruct M as [PE PU].
+    destruct (list_eq_dec inst_eq_dec pb pa) as [<-|]; [|discriminate].
+    destruct (walk (length rb + length ra + 1) U (kill (flat_map i_outs pb) INb) (kill (flat_map i_outs pb) INa) rb ra) as [[OB OA]|] eqn:WK;
+      [|discriminate].
+    simpl. unfold block_res.
+    pose proof (exec_phis_split prev lb vb vb pb rb SB) as HB1. pose proof (exec_phis_split prev la va va pb ra SA) as HA1.
+    (* the phi prefix, identical on both sides *)
+    set (stop := Inst [] O_stop []) in *.
+    assert (AL : ruv_align U (pb ++ [stop]) (pb ++ [stop]) = true).
+    { apply ruv_align_refl. rewrite forallb_app. rewrite PU. reflexivity. }
+    assert (PT : phis_top (pb ++ [stop]) = true).
+    { clear - SB. revert pb rb SB. induction lb as [|i r IH]; intros pb rb SB; simpl in SB.
+      - inversion SB. reflexivity.
+      - destruct (is_phi i) eqn:P.
+        + destruct (split_phis r) as [ps rs] eqn:SR. inversion SB. subst. simpl. rewrite P. eapply IH; eauto.
+        + inversion SB. reflexivity. }
+    pose proof (ruv_phis U prev (pb ++ [stop]) (pb ++ [stop]) vb va vb va AL PT A A) as PH.
+    destruct (exec_phis prev lb vb vb) as [[vb1 r1]|] eqn:EB.
+    2:{ left. exact I. }
+    destruct HB1 as [-> HB1]. rewrite HB1 in PH. destruct PH as [va1 [ra1 [EA1 [A1 _]]]].
+    destruct (exec_phis prev la va va) as [[va2 r2]|] eqn:EA.
+    2:{ rewrite HA1 in EA1. discriminate. }
+    destruct HA1 as [-> HA1]. rewrite HA1 in EA1. inversion EA1. subst va2 ra1. clear EA1.
+    assert (KB : holds (kill (flat_map i_outs pb) INb) vb1).
+    { eapply kill_holds; eauto. intros x N. apply (exec_phis_other prev lb vb vb vb1 rb EB x). rewrite SB. simpl. assumption. }
+    assert (KA : holds (kill (flat_map i_outs pb) INa) va1).
+    { eapply kill_holds; eauto. intros x N. apply (exec_phis_other prev la va va va1 ra EA x). rewrite SA. simpl. assumption. }
+    pose proof (walk_sound E X U _ _ _ rb ra OB OA vb1 va1 st WK A1 KB KA) as WS. simpl in WS.
+    destruct WS as [S|[S|G]].
+    - left. destruct (exec_insts E X rb vb1 st); simpl in *; try contradiction. destruct h; simpl in *; try discriminate; exact I.
+    - right. left. split; auto. destruct (exec_insts E X ra va1 st); simpl in *; try contradiction. destruct h; simpl in *; try discriminate; exact I.
+    - right. right. destruct (exec_insts E X rb vb1 st) as [v s|l v s|h s] eqn:RB; destruct (exec_insts E X ra va1 st) as [v' s'|l' v' s'|h' s'] eqn:RA;
+        simpl in G; try contradiction; auto.
+      destruct G as [<- [<- [A2 [H2b H2a]]]]. repeat split; auto.
+      (* the entry sets of the target are included in what holds at the jump *)
+      destruct (PositiveMap.find l C) as [[Tb Ta]|] eqn:FC; auto.
+      pose proof (edges_jump E X C OB OA l rb vb1 st v s Tb Ta W RB FC) as EDGE.
+      apply andb_true_iff in EDGE. destruct EDGE as [E1 E2].
+      split; eapply holds_sub; eauto; apply sub_av_spec; assumption.
+  Qed.
+End CopyLift.
+
+Theorem copy_check_sound : forall U C b a, copy_check U C b a = true ->
+  forall n E X st, not_stuck (vrun n E X b st) -> not_stuck (vrun n E X a st) -> vrun n E X a st = vrun n E X b st.
+Proof.
+  intros U C b a H n E X st NB NA. unfold copy_check in H. apply andb_true_iff in H. destruct H as [H BM].
+  apply andb_true_iff in H. destruct H as [FR EN0]. unfold same_frame in FR. apply andb_true_iff in FR. destruct FR as [EN CO].
+  apply Pos.eqb_eq in EN. destruct (code_eq_dec (f_code b) (f_code a)) as [CE|]; [|discriminate].
+  unfold vrun in *. rewrite <- EN, <- CE in *.
+  set (E' := mkEnv (e_calldata E) (e_words E) (e_hash E) (e_immbase E) (f_code b)) in *.
+  apply (sim_run E' X b a (cinv U C) True); auto.
+  - intros cur prev vb va st0 I. apply (copy_blk E' X U C b a BM cur prev vb va st0 I).
+  - unfold cinv. split; [apply agree_refl|]. unfold entry_ok in EN0.
+    destruct (PositiveMap.find (f_entry b) C) as [[[|? ?] [|? ?]]|]; try discriminate. split; apply holds_nil.
+Qed.
+
+Definition cert_of (l : list (positive * (avs * avs))) : cert :=
+  fold_left (fun m kv => PositiveMap.add (fst kv) (snd kv) m) l (PositiveMap.empty (avs * avs)).
